@@ -10,6 +10,9 @@
 #include <ctime>
 #include <fcntl.h>
 #include <sys/mman.h>
+#include <sys/stat.h>
+#include <clocale>
+#include <cstdarg>
 #include <sys/time.h>
 #include <sys/wait.h>
 #include <unistd.h>
@@ -34,6 +37,22 @@ ssize_t __real_write(int, const void *, size_t);
 int __real_isatty(int);
 int __real_remove(const char *);
 int __real_unlink(const char *);
+int __real_rename(const char *, const char *);
+int __real_open(const char *, int, ...);
+int __real_close(int);
+off_t __real_lseek(int, off_t, int);
+int __real_fstat(int, struct stat *);
+int __real_stat(const char *, struct stat *);
+FILE *__real_fdopen(int, const char *);
+int __real_dup(int);
+char *__real_getcwd(char *, size_t);
+mode_t __real_umask(mode_t);
+int __real_gettimeofday(struct timeval *, void *);
+clock_t __real_clock(void);
+uid_t __real_getuid(void);
+pid_t __real_getppid(void);
+long __real_sysconf(int);
+char *__real_setlocale(int, const char *);
 pid_t __real_getpid(void);
 size_t __sanitizer_get_allocated_size(const volatile void *);
 }
@@ -59,7 +78,7 @@ struct Hdr { uint64_t size; uint64_t magic; uint64_t total; uint64_t pad; };  //
 const size_t FRONT = sizeof(Hdr) + 16;
 
 struct InStream { int file; size_t pos; };
-struct OutStream { int which; };  // 0: original stdout, 1: -o file
+struct OutStream { int which; std::string path; };  // 0: the process's stdout, 1: a file opened for writing (path)
 struct FdEnt { FILE *f; int fd; InStream *in; OutStream *out; };
 
 struct State {
@@ -71,7 +90,8 @@ struct State {
 	char *lo = nullptr, *hi = nullptr;
 	std::vector<char *> blocks;                 // every block ever handed out (plain build)
 	std::map<size_t, std::vector<char *>> freelist;
-	std::string sink[2];
+	std::string sink[2];                        // [0] stdout, [1] filled at the end from outfiles["/sim/out"]
+	std::map<std::string, std::string> outfiles; // simulated files opened for writing
 	int designated = 0;
 	bool write_dead = false;
 	uint64_t budget_steps = 0;
@@ -116,11 +136,17 @@ NOINSTR void fired(uint32_t bit) {
 
 NOINSTR void send_result_and_exit() {
 	// final bookkeeping that is safe in any context
-	if (S.out_removed) S.sink[1] = "<output file removed>";
+	{
+		auto it = S.outfiles.find("/sim/out");
+		S.sink[1] = it != S.outfiles.end() ? it->second : std::string(S.plan->dash_o ? "<output file does not exist>" : "");
+		if (S.out_removed && it == S.outfiles.end()) S.sink[1] = "<output file removed>";
+	}
+	S.designated = S.plan->dash_o ? 1 : 0;
 	const std::string &out = S.sink[S.designated];
 	S.res.sink_len = out.size();
 	S.res.sink_hash = hash_bytes(out.data(), out.size());
-	S.res.stray_len = S.sink[1 - S.designated].size();
+	S.res.stray_len = S.plan->dash_o ? S.sink[0].size() : 0;
+	for (auto &kv : S.outfiles) if (kv.first != "/sim/out") S.res.stray_len += kv.second.size() + 1;  // anything written elsewhere
 	if (S.want_cov) {
 		uint32_t n = 0;
 		for (void *p : S.seen) if (p) n++;
@@ -303,14 +329,14 @@ NOINSTR ssize_t out_write(void *c, const char *buf, size_t n) {
 			acc = (size_t)f->prefix < n ? (size_t)f->prefix : n - 1;
 			if (f->persistent) S.write_dead = true;
 		}
-		S.sink[o->which].append(buf, acc);
+		(o->which ? S.outfiles[o->path] : S.sink[0]).append(buf, acc);
 		S.res.dropped += (uint32_t)(n - acc);
 		fired(F_WRITE);
 		ev(0x77, (uint64_t)k * 131 + acc);
 		errno = f && f->err ? f->err : ENOSPC;
 		return (ssize_t)acc;  // short count: stdio flags the error and drops the rest
 	}
-	S.sink[o->which].append(buf, n);
+	(o->which ? S.outfiles[o->path] : S.sink[0]).append(buf, n);
 	ev(0x57, hash_bytes(buf, n));
 	return (ssize_t)n;
 }
@@ -327,11 +353,12 @@ NOINSTR void forget_stream(void *cookie) {
 		if ((void *)S.fds[i].in == cookie) { S.fds.erase(S.fds.begin() + (long)i); return; }
 }
 
-NOINSTR FILE *make_out(int which) {
+NOINSTR FILE *make_out(int which, const char *path = "", bool append = false) {
 	cookie_io_functions_t io = {nullptr, out_write, nullptr, nullptr};
-	OutStream *os = new OutStream{which};
+	OutStream *os = new OutStream{which, path};
+	if (which && !append) S.outfiles[path].clear();
 	FILE *f = fopencookie(os, "w", io);
-	S.fds.push_back(FdEnt{f, which == 0 ? 1 : 200, nullptr, os});
+	S.fds.push_back(FdEnt{f, which == 0 ? 1 : 200 + (int)S.fds.size(), nullptr, os});
 	switch (S.plan->outbuf) {
 	case 1: setvbuf(f, nullptr, _IONBF, 0); break;
 	case 2: setvbuf(f, S.obuf, _IOLBF, 4096); break;
@@ -513,6 +540,12 @@ NOINSTR FILE *__wrap_fopen(const char *path, const char *mode) {
 		errno = f->err ? f->err : ENOENT;
 		return nullptr;
 	}
+	if (mode && (mode[0] == 'w' || mode[0] == 'a')) {
+		S.in_sut = false;
+		FILE *f = make_out(1, path, mode[0] == 'a');
+		S.in_sut = true;
+		return f;
+	}
 	for (size_t i = 0; i < S.plan->files.size(); i++)
 		if (S.plan->files[i].name == path) {
 			S.in_sut = false;
@@ -534,8 +567,7 @@ NOINSTR FILE *__wrap_freopen(const char *path, const char *mode, FILE *stream) {
 	}
 	if (stream != stdout) { errno = EBADF; return nullptr; }
 	S.in_sut = false;
-	FILE *f = make_out(1);
-	S.designated = 1;
+	FILE *f = make_out(1, path, mode && mode[0] == 'a');
 	stdout = f;
 	S.in_sut = true;
 	return f;
@@ -613,8 +645,10 @@ NOINSTR int __wrap_isatty(int fd) {
 }
 NOINSTR static int sim_remove(const char *path) {
 	ev(0x75, hash_bytes(path, strlen(path)));
-	if (strcmp(path, "/sim/out") == 0 && S.designated == 1 && !S.out_removed) {
-		S.out_removed = true;
+	auto it = S.outfiles.find(path);
+	if (it != S.outfiles.end()) {
+		S.outfiles.erase(it);
+		if (strcmp(path, "/sim/out") == 0) S.out_removed = true;
 		return 0;
 	}
 	errno = ENOENT;
@@ -622,6 +656,164 @@ NOINSTR static int sim_remove(const char *path) {
 }
 NOINSTR int __wrap_remove(const char *path) { return S.in_sut ? sim_remove(path) : __real_remove(path); }
 NOINSTR int __wrap_unlink(const char *path) { return S.in_sut ? sim_remove(path) : __real_unlink(path); }
+
+NOINSTR int __wrap_rename(const char *from, const char *to) {
+	if (!S.in_sut) return __real_rename(from, to);
+	ev(0x6e, hash_bytes(to, strlen(to)));
+	auto it = S.outfiles.find(from);
+	if (it == S.outfiles.end()) { errno = ENOENT; return -1; }
+	std::string data = it->second;
+	S.outfiles.erase(it);
+	S.outfiles[to] = data;
+	for (auto &e : S.fds) if (e.out && e.out->which && e.out->path == from) e.out->path = to;
+	return 0;
+}
+NOINSTR int __wrap_open(const char *path, int flags, ...) {
+	if (!S.in_sut) {
+		va_list ap; va_start(ap, flags); int mode = va_arg(ap, int); va_end(ap);
+		return __real_open(path, flags, mode);
+	}
+	ev(0x4f, hash_bytes(path, strlen(path)));
+	if ((flags & O_ACCMODE) == O_RDONLY) {
+		long k = S.res.nfopen++;
+		if (const FaultB *f = find_fault("fopen", k)) { fired(F_FOPEN); errno = f->err ? f->err : ENOENT; return -1; }
+		for (size_t i = 0; i < S.plan->files.size(); i++)
+			if (S.plan->files[i].name == path) {
+				InStream *in = new InStream{(int)i, 0};
+				S.ins.push_back(in);
+				int fd = 300 + (int)S.fds.size();
+				S.fds.push_back(FdEnt{nullptr, fd, in, nullptr});
+				return fd;
+			}
+		errno = ENOENT;
+		return -1;
+	}
+	if (!(flags & O_CREAT) && !S.outfiles.count(path)) { errno = ENOENT; return -1; }
+	if ((flags & O_TRUNC) || !S.outfiles.count(path)) S.outfiles[path].clear();
+	OutStream *os = new OutStream{1, path};
+	int fd = 300 + (int)S.fds.size();
+	S.fds.push_back(FdEnt{nullptr, fd, nullptr, os});
+	return fd;
+}
+NOINSTR int __wrap_close(int fd) {
+	if (!S.in_sut) return __real_close(fd);
+	for (size_t i = 0; i < S.fds.size(); i++) if (S.fds[i].fd == fd && !S.fds[i].f) { S.fds.erase(S.fds.begin() + (long)i); return 0; }
+	if (fd_by_fd(fd)) return 0;
+	errno = EBADF;
+	return -1;
+}
+NOINSTR off_t __wrap_lseek(int fd, off_t off, int whence) {
+	if (!S.in_sut) return __real_lseek(fd, off, whence);
+	FdEnt *e = fd_by_fd(fd);
+	if (!e) { errno = EBADF; return -1; }
+	if (!e->in || (fd == 0 && S.plan->stdin_pipe)) { errno = ESPIPE; return -1; }
+	off64_t p = off;
+	if (in_seek(e->in, &p, whence) < 0) return -1;
+	return (off_t)p;
+}
+NOINSTR int __wrap_fstat(int fd, struct stat *st) {
+	if (!S.in_sut) return __real_fstat(fd, st);
+	memset(st, 0, sizeof *st);
+	FdEnt *e = fd_by_fd(fd);
+	if (fd == 2) { st->st_mode = S_IFCHR | 0620; return 0; }
+	if (!e) { errno = EBADF; return -1; }
+	if (e->in) {
+		if (fd == 0 && S.plan->stdin_pipe) { st->st_mode = S_IFIFO | 0600; return 0; }
+		st->st_mode = S_IFREG | 0644;
+		st->st_size = (off_t)S.plan->files[e->in->file].data.size();
+		return 0;
+	}
+	// what standard output is (file, pipe, terminal) belongs to the environment: seeded
+	if (e->out && e->out->which == 0) {
+		fired(F_TRIPWIRE);
+		static const mode_t kinds[] = {S_IFREG | 0644, S_IFIFO | 0600, S_IFCHR | 0620};
+		st->st_mode = kinds[S.triprng.next() % 3];
+		return 0;
+	}
+	st->st_mode = S_IFREG | 0644;
+	st->st_size = e->out ? (off_t)S.outfiles[e->out->path].size() : 0;
+	return 0;
+}
+NOINSTR int __wrap_stat(const char *path, struct stat *st) {
+	if (!S.in_sut) return __real_stat(path, st);
+	memset(st, 0, sizeof *st);
+	for (auto &f : S.plan->files) if (f.name == path) { st->st_mode = S_IFREG | 0644; st->st_size = (off_t)f.data.size(); return 0; }
+	auto it = S.outfiles.find(path);
+	if (it != S.outfiles.end()) { st->st_mode = S_IFREG | 0644; st->st_size = (off_t)it->second.size(); return 0; }
+	errno = ENOENT;
+	return -1;
+}
+NOINSTR FILE *__wrap_fdopen(int fd, const char *mode) {
+	if (!S.in_sut) return __real_fdopen(fd, mode);
+	FdEnt *e = fd_by_fd(fd);
+	if (!e) { errno = EBADF; return nullptr; }
+	S.in_sut = false;
+	FILE *f;
+	if (e->in) {
+		cookie_io_functions_t io = {in_read, nullptr, (fd == 0 && S.plan->stdin_pipe) ? nullptr : in_seek, nullptr};
+		f = fopencookie(e->in, "r", io);
+	} else {
+		cookie_io_functions_t io = {nullptr, out_write, nullptr, nullptr};
+		f = fopencookie(e->out, "w", io);
+	}
+	if (!e->f) e->f = f;
+	else S.fds.push_back(FdEnt{f, fd, e->in, e->out});
+	S.in_sut = true;
+	return f;
+}
+NOINSTR int __wrap_dup(int fd) {
+	if (!S.in_sut) return __real_dup(fd);
+	FdEnt *e = fd_by_fd(fd);
+	if (!e) { errno = EBADF; return -1; }
+	int nfd = 300 + (int)S.fds.size();
+	FdEnt c = *e;
+	c.f = nullptr;
+	c.fd = nfd;
+	S.fds.push_back(c);
+	return nfd;
+}
+
+// more of the environment, seeded: what these return is not a function of the input text
+NOINSTR char *__wrap_getcwd(char *buf, size_t n) {
+	if (!S.in_sut) return __real_getcwd(buf, n);
+	fired(F_TRIPWIRE);
+	static const char *dirs[] = {"/", "/home/u/src", "/tmp/build-7", "/a/very/long/working/directory/name"};
+	const char *d = dirs[S.triprng.next() % 4];
+	if (!buf) { buf = (char *)__real_malloc(strlen(d) + 1); n = strlen(d) + 1; }
+	if (strlen(d) + 1 > n) { errno = ERANGE; return nullptr; }
+	strcpy(buf, d);
+	return buf;
+}
+NOINSTR mode_t __wrap_umask(mode_t m) {
+	if (!S.in_sut) return __real_umask(m);
+	(void)m;
+	fired(F_TRIPWIRE);
+	static const mode_t ms[] = {022, 077, 002, 0};
+	return ms[S.triprng.next() % 4];
+}
+NOINSTR int __wrap_gettimeofday(struct timeval *tv, void *tz) {
+	if (!S.in_sut) return __real_gettimeofday(tv, tz);
+	fired(F_TRIPWIRE);
+	uint64_t v = S.triprng.next();
+	if (tv) { tv->tv_sec = (time_t)(v % 2000000000ULL); tv->tv_usec = (suseconds_t)((v >> 33) % 1000000); }
+	return 0;
+}
+NOINSTR clock_t __wrap_clock(void) {
+	if (!S.in_sut) return __real_clock();
+	fired(F_TRIPWIRE);
+	return (clock_t)(S.triprng.next() % 100000000ULL);
+}
+NOINSTR uid_t __wrap_getuid(void) { if (S.in_sut) { fired(F_TRIPWIRE); return (uid_t)(S.triprng.next() % 3 * 1000); } return __real_getuid(); }
+NOINSTR pid_t __wrap_getppid(void) { if (S.in_sut) { fired(F_TRIPWIRE); return (pid_t)(2 + S.triprng.next() % 30000); } return __real_getppid(); }
+NOINSTR void __wrap_srand(unsigned s) { (void)s; if (S.in_sut) fired(F_TRIPWIRE); }
+NOINSTR void __wrap_srandom(unsigned s) { (void)s; if (S.in_sut) fired(F_TRIPWIRE); }
+NOINSTR long __wrap_sysconf(int name) {
+	if (!S.in_sut) return __real_sysconf(name);
+	fired(F_TRIPWIRE);
+	if (name == _SC_PAGESIZE) { static const long ps[] = {4096, 16384, 65536}; return ps[S.triprng.next() % 3]; }
+	if (name == _SC_OPEN_MAX) { static const long om[] = {256, 1024, 1048576}; return om[S.triprng.next() % 3]; }
+	return __real_sysconf(name);
+}
 
 // tripwires: cproc-qbe does not call these today.  If a change introduces a
 // call, it gets seeded, varying values, so that any dependence of the output
@@ -665,10 +857,14 @@ NOINSTR pid_t __wrap_getpid(void) {
 	return (pid_t)(2 + S.triprng.next() % 30000);
 }
 NOINSTR char *__wrap_setlocale(int cat, const char *loc) {
-	(void)cat; (void)loc;
-	if (S.in_sut) fired(F_TRIPWIRE);
-	static char c[] = "C";
-	return c;
+	if (!S.in_sut) return __real_setlocale(cat, loc);
+	fired(F_TRIPWIRE);
+	// "" asks for the environment's locale: seeded among the locales installed here
+	if (loc && !*loc) {
+		static const char *ls[] = {"C", "C.utf8", "POSIX"};
+		loc = ls[S.triprng.next() % 3];
+	}
+	return __real_setlocale(cat, loc);
 }
 
 }  // extern "C"
